@@ -84,15 +84,16 @@ def norm_reserved(t):
 @rule("C16-L1", "C16", 6, "the layout formula is one and the same term at every site: Options::data_offset_in, header_meta and each constructor's Memory.data_offset "
       "(unified: alignUp(H, reserved) + align_of H + size_of H; plain: reserved + 1)", also=("C05",))
 def l1(ctx):
-    b = ctx.facts.one(r"^options::Options::data_offset_in$")
-    ev, res = ctx.eval(b)
     RES, UNI = ("param", 0, "reserved"), ("param", 1, "unify")
-    for r in res.log:
-        if r["kind"] == "ret0" and not r["chain"]:
-            fs = ctx.facts_of(ev, r)
-            u = ("bool", UNI, True) in fs
-            want = unify_formula(RES) if u else plain_formula(RES)
-            yield Ob(key_of("C16-L1", b.path, "unify" if u else "plain"), term_eq(r["value"], want), "data_offset_in(%s) = %s" % ("unify" if u else "plain", short(r["value"], 90)), ctx.loc(r))
+    # the two public accessors (whatever private helper computes them): data_offset() is the plain formula, data_offset_unify() the unified one
+    for acc, mode, form in (("data_offset", "plain", plain_formula), ("data_offset_unify", "unify", unify_formula)):
+        b = ctx.facts.one(r"^options::Options::%s$" % acc)
+        ev, res = ctx.eval(b)
+        rets = [r for r in res.log if r["kind"] == "ret0" and not r["chain"]]
+        RSELF = ("field", ("param", 0, "self"), "reserved")
+        ok = len(rets) == 1 and term_eq(norm_reserved(canon(rets[0]["value"])), form(RSELF)) or (len(rets) == 1 and term_eq(canon(rets[0]["value"]), form(RSELF)))
+        yield Ob(key_of("C16-L1", "options::Options::data_offset_in", mode), bool(ok), "Options::%s() = %s" % (acc, short(rets[0]["value"], 90) if rets else "?"),
+                 ctx.loc(rets[0]) if rets else b.loc())
     b = ctx.facts.one(r"^memory::header_meta$")
     ev, res = ctx.eval(b)
     for r in res.log:
